@@ -1,3 +1,4 @@
+import RactorModel.Lemmas.GenFrame
 import RactorModel.Lemmas.Frames
 import RactorModel.Extracted
 
@@ -376,6 +377,32 @@ example : framesObs (fun p => some p) 4 [[0,0,0,0,0,0,0,5, 1,2,3,4,5]] = ([.err 
 
 example : metaOk ⟨1700000000000000000, some 1500, [1, 2]⟩ = true := by decide
 
+
+/-! ### Translator tie (rs2lean): kernel-checked equivalence between the definitions that
+`extract/rs2lean.py` regenerates from the CURRENT Rust source on every run
+(`RactorModel/Generated/*.lean`) and the hand-written model functions the theorems above are
+about. A semantic change of the Rust function changes the generated text and these stop checking. -/
+
+section XlateTie
+open Generated.Frame GenFrame
+
+theorem generated_checked_frame_length_eq_model (len max : Nat) :
+    (checked_frame_length len max).mapError absErr = Codec.checkedFrameLength len max := by
+  unfold checked_frame_length Codec.checkedFrameLength
+  by_cases h1 : len > max
+  · simp [h1, Except.mapError, absErr]
+  · have hx : Rust.unwrap (Rust.tryFrom 64 9223372036854775807) = Codec.isizeMax := by decide
+    simp only [h1, decide_false, Bool.false_eq_true, ↓reduceIte, hx]
+    by_cases h2 : len > Codec.isizeMax
+    · simp [h2, Except.mapError, absErr]
+    · have h3 : len < 2 ^ 64 := by unfold Codec.isizeMax at h2; omega
+      simp [h2, Rust.tryFrom, h3, Rust.okOr, Except.mapError]
+
+theorem generated_frame_constants :
+    FRAME_READ_CHUNK_SIZE = Codec.chunkSize ∧ DEFAULT_MAX_INBOUND_FRAME_SIZE = Codec.defaultMaxFrame := by
+  decide
+end XlateTie
+
 end C19
 
 #print axioms C19.int_roundtrip
@@ -408,3 +435,6 @@ end C19
 #print axioms C19.chunk_size_value
 #print axioms C19.src_frame_chunk
 #print axioms C19.src_default_max_frame
+-- rs2lean tie
+#print axioms C19.generated_checked_frame_length_eq_model
+#print axioms C19.generated_frame_constants
